@@ -91,6 +91,8 @@ IMPORTS_CONT = ['Coq.NArith.NArith', 'Coq.ZArith.ZArith', 'Coq.Lists.List', 'Coq
                 'SV.Fmt.VtfContainer', 'SV.Fmt.VtfWholeFile', 'SV.Gen.VtfContainer_gen']
 IMPORTS_ACCESS = ['Coq.ZArith.ZArith', 'Coq.Lists.List', 'Coq.Strings.String', 'Coq.Bool.Bool', 'SV.Fmt.VtfLayout', 'SV.Fmt.VtfAccess',
                   'SV.Gen.VtfLayout_gen', 'SV.Gen.VtfAccess_gen']
+IMPORTS_WHOLE = ['Coq.NArith.NArith', 'Coq.ZArith.ZArith', 'Coq.Lists.List', 'Coq.Bool.Bool', 'SV.Fmt.VtfPixelExpr', 'SV.Gen.PixelCodecs_gen',
+                 'SV.Fmt.VtfC15WholeProofs']
 IMPORTS_FRAME = ['Coq.Lists.List', 'Coq.Strings.String', 'Coq.Bool.Bool', 'SV.Fmt.VtfFrameSM', 'SV.Fmt.VtfFrameRaise', 'SV.Gen.VtfFrameSM_gen']
 
 # format (lower case) -> (specification of load-after-save, canonical stored form)
@@ -1888,7 +1890,7 @@ def gen_reject_history(rng: random.Random, n: int) -> list[list]:
     return [op for op in ops if op not in vt] + vt
 
 
-def reject_view_case(seed: int, pre: str, m: int, which: str) -> list[tuple[str, str]]:
+def reject_view_case(seed: int, pre: str, m: int, which: str | None) -> list[tuple[str, str]]:
     """One frame of a lazily read file in the state `pre`, one rejected call, then what the frame SHOWS."""
     from srctools.vtf import VTF
     base, n, levels = history_base(seed)
@@ -1905,7 +1907,9 @@ def reject_view_case(seed: int, pre: str, m: int, which: str) -> list[tuple[str,
         fr.rescale_from(v.get(mipmap=m - 1))
     what = f'lazy read of a {HIST_W}x{HIST_H} file, level {m} {pre}, then the rejected call {which}'
     try:
-        if which in VTF_REJECTS:
+        if which is None:
+            pass            # base line: the same frame without the rejected call
+        elif which in VTF_REJECTS:
             _do_vtf_reject(v, which)
         else:
             _do_reject(v, fr, m, which)
@@ -2263,6 +2267,8 @@ def search_rejected(ck: Ck) -> None:
     reported: set[str] = set()
     for pre in ('lazy', 'loaded', 'cleared', 'rescaled'):
         for m in sorted({0, 1, n - 1}):
+            if reject_view_case(ck.seed, pre, m, None):
+                continue        # the frame is wrong without any rejected call: that is the business of the frame histories
             for which in REJECTS + VTF_REJECTS:
                 ck.count('rejected_call_views')
                 ck.hist('rejected_call', which)
@@ -2298,7 +2304,10 @@ def search_rejected(ck: Ck) -> None:
             if op[0] == 'reject':
                 ck.hist('rejected_call', op[2])
         ck.seen(('rejhist', json.dumps(ops)))
-        for key, what in check_history(base, n, levels, ops):
+        probs = check_history(base, n, levels, ops)
+        if probs and check_history(base, n, levels, [op for op in ops if op[0] != 'reject']):
+            continue            # wrong without the rejected calls as well: reported by the frame histories
+        for key, what in probs:
             found.setdefault(key, (ops, what))
     for key, (ops, what) in found.items():
         small = list(ops)
@@ -2450,7 +2459,13 @@ def run(ck: Ck) -> None:
             'nearest_filters_use_the_same_texel_offsets_as_bilinear': 'nearest_offsets_same_as_bilinear',
         })
         # the four groups of instance obligations run in the background (two coqc each) while Print Assumptions runs here
-        groups = [_Deferred(ck, IMPORTS, obs, 'inst'), _Deferred(ck, IMPORTS_FRAME, frame_obligations(ck.extra['translated']['VtfFrameSM_gen']), 'inst_frame'),
+        # the single premise of c15_property, per generated codec (the 565 formats are carved out by the known finding)
+        whole = {f'all_premises_of_c15_property_hold_for_the_generated_objects_and_codec_{name}':
+                 f'c15_generated_objects_ok codec_{name} {SPECS[name][0]} ({SPECS[name][1]})'
+                 for name in sorted(SPECS) if name in cod and name not in SWAP_565}
+        whole['the_premises_of_c15_property_other_than_the_codec_hold_for_the_generated_objects'] = \
+            '(container_ok && lifecycle_ok && access_ok && mipmaps_ok)%bool'
+        groups = [_Deferred(ck, IMPORTS_WHOLE, whole, 'inst_whole'), _Deferred(ck, IMPORTS, obs, 'inst'), _Deferred(ck, IMPORTS_FRAME, frame_obligations(ck.extra['translated']['VtfFrameSM_gen']), 'inst_frame'),
                   _Deferred(ck, IMPORTS_CONT, CONT_OBS, 'inst_cont'),
                   _Deferred(ck, IMPORTS_ACCESS, access_obligations(ck.extra['translated']['VtfAccess_gen']), 'inst_access')]
         ck.theorems('Props/C15.v')
